@@ -20,7 +20,7 @@ from xv.props.common import ctxs, flush_contracts, new_case, build_root
 
 ID = "C19"
 LEVEL = "exploration"
-N_QUICK, N_THOROUGH = 50000, 800000
+N_QUICK, N_THOROUGH = 70000, 800000
 T_QUICK, T_THOROUGH = 70, 1500
 FLOORS = {"hybrid_roundtrips": 4000, "json_roundtrips": 4000, "json_text_roundtrips": 1500,
           "fields_compared": 15000, "renamed_fields_compared": 3000, "nested_renamed_compared": 800,
